@@ -48,12 +48,12 @@ structure Good (s : Sys) : Prop where
   loopW : ∀ rid ∈ s.loopQ, Written s.log rid
   ord : Ordered s.log
 
-theorem good_init (info : Info) (p : Pairings) : Good (init info p) :=
+theorem good_init (info : Info) (p : Pairings) (ss : List (Nat × Client)) : Good (init info p ss) :=
   ⟨by simp [init], by simp [init], by simp [init, Ordered]⟩
 
 /-- a response that reports a pairing change is never a deferred one -/
-theorem handle_changed_not_task (p : Pairings) (r : Req) :
-    (handle p r).2.pairingChanged = true → (handle p r).2.task = false := by
+theorem handle_changed_not_task (p : Pairings) (ss : Option Client) (r : Req) :
+    (handle p ss r).2.pairingChanged = true → (handle p ss r).2.task = false := by
   cases r <;> simp only [handle, plain] <;> (repeat' split) <;> simp
 
 theorem mem_of_getElem? {α : Type} {l : List α} {i : Nat} {a : α} (h : l[i]? = some a) : a ∈ l :=
@@ -79,37 +79,56 @@ theorem good_enqueue (s : Sys) (rid : Nat) (h : Good s) (hw : Written s.log rid)
   · exact h.execW x hx
   · exact hw
 
+/-- `Good` only looks at the log and the two queues -/
+theorem Good.congr {s s' : Sys} (h : Good s) (h1 : s'.log = s.log) (h2 : s'.execQ = s.execQ)
+    (h3 : s'.loopQ = s.loopQ) : Good s' :=
+  ⟨by rw [h1, h2]; exact h.execW, by rw [h1, h3]; exact h.loopW, by rw [h1]; exact h.ord⟩
+
 theorem good_processResponse (s : Sys) (conn rid : Nat) (r : Resp) (h : Good s)
     (hr : r.pairingChanged = true → r.task = false) : Good (processResponse s conn rid r) := by
   unfold processResponse
   cases hp : r.pairingChanged
   · -- nothing is scheduled
-    simp only [Bool.false_eq_true, if_false]
-    cases ht : r.task <;> cases hk : r.sharedKey <;>
+    cases ht : r.task <;> cases hk : r.sharedKey <;> cases hc : r.pairingRemoved <;>
       simp only [Bool.false_eq_true, if_true, if_false]
     · exact good_write _ _ _ h
+    · exact (good_write _ conn rid h).congr rfl rfl rfl
     · exact good_cipher _ _ _ (good_write _ _ _ h)
+    · exact (good_cipher _ conn rid (good_write _ conn rid h)).congr rfl rfl rfl
     · exact good_deferred _ _ h
+    · exact h.congr rfl rfl rfl
+    · exact ⟨fun x hx => (h.execW x hx).cons _, fun x hx => (h.loopW x hx).cons _, h.ord⟩
     · exact ⟨fun x hx => (h.execW x hx).cons _, fun x hx => (h.loopW x hx).cons _, h.ord⟩
   · have ht : r.task = false := hr hp
-    simp only [ht, Bool.false_eq_true, if_true, if_false]
-    cases hk : r.sharedKey <;> simp only [Bool.false_eq_true, if_true, if_false]
+    cases hk : r.sharedKey <;> cases hc : r.pairingRemoved <;>
+      simp only [ht, Bool.false_eq_true, if_true, if_false]
     · exact good_enqueue _ _ (good_write _ _ _ h) ⟨conn, List.mem_cons_self ..⟩
+    · exact (good_enqueue _ rid (good_write _ conn rid h) ⟨conn, List.mem_cons_self ..⟩).congr rfl rfl rfl
     · exact good_enqueue _ _ (good_cipher _ _ _ (good_write _ _ _ h))
         ⟨conn, List.mem_cons_of_mem _ (List.mem_cons_self ..)⟩
+    · exact (good_enqueue _ rid (good_cipher _ conn rid (good_write _ conn rid h))
+        ⟨conn, List.mem_cons_of_mem _ (List.mem_cons_self ..)⟩).congr rfl rfl rfl
 
 theorem good_step (s : Sys) (st : Step) (h : Good s) : Good (step s st) := by
   cases st with
   | request conn r =>
     simp only [step]
-    exact good_processResponse _ _ _ _ ⟨h.execW, h.loopW, h.ord⟩ (handle_changed_not_task s.paired r)
+    by_cases hc : isClosed s conn = true
+    · simp only [hc, if_true]; exact h
+    · simp only [hc, Bool.false_eq_true, if_false]
+      exact good_processResponse _ _ _ _ ⟨h.execW, h.loopW, h.ord⟩
+        (handle_changed_not_task s.paired (sessionOf s conn) r)
   | taskDone i =>
     simp only [step]
     cases hd : s.deferred[i]? with
     | none => exact h
     | some cr =>
       obtain ⟨conn, rid⟩ := cr
-      exact good_deferred _ _ (good_write _ _ _ h)
+      by_cases hc : isClosed s conn = true
+      · simp only [hc, if_true]
+        exact good_deferred _ _ h
+      · simp only [hc, Bool.false_eq_true, if_false]
+        exact good_deferred _ _ (good_write _ _ _ h)
   | execRun i =>
     simp only [step]
     cases hd : s.execQ[i]? with
@@ -156,20 +175,20 @@ def Track (sf0 : Option String) (s : Sys) : Prop :=
 theorem pr_execQ (s : Sys) (c rid : Nat) (r : Resp) :
     (processResponse s c rid r).execQ = if r.pairingChanged then s.execQ ++ [rid] else s.execQ := by
   unfold processResponse
-  cases r.task <;> cases r.sharedKey <;> cases r.pairingChanged <;> rfl
+  cases r.task <;> cases r.sharedKey <;> cases r.pairingRemoved <;> cases r.pairingChanged <;> rfl
 
 theorem pr_loopQ (s : Sys) (c rid : Nat) (r : Resp) : (processResponse s c rid r).loopQ = s.loopQ := by
   unfold processResponse
-  cases r.task <;> cases r.sharedKey <;> cases r.pairingChanged <;> rfl
+  cases r.task <;> cases r.sharedKey <;> cases r.pairingRemoved <;> cases r.pairingChanged <;> rfl
 
 theorem pr_paired (s : Sys) (c rid : Nat) (r : Resp) : (processResponse s c rid r).paired = s.paired := by
   unfold processResponse
-  cases r.task <;> cases r.sharedKey <;> cases r.pairingChanged <;> rfl
+  cases r.task <;> cases r.sharedKey <;> cases r.pairingRemoved <;> cases r.pairingChanged <;> rfl
 
 theorem pr_adv (sf0 : Option String) (s : Sys) (c rid : Nat) (r : Resp) :
     advertisedSf sf0 (processResponse s c rid r).log = advertisedSf sf0 s.log := by
   unfold processResponse
-  cases r.task <;> cases r.sharedKey <;> cases r.pairingChanged <;> rfl
+  cases r.task <;> cases r.sharedKey <;> cases r.pairingRemoved <;> cases r.pairingChanged <;> rfl
 
 theorem isAdmin_nonempty {p : Pairings} {c : Client} (h : isAdmin p c = true) : p ≠ [] := by
   intro e; subst e; simp [isAdmin] at h
@@ -184,12 +203,12 @@ theorem addPairing_nonempty (p : Pairings) (c : Client) (a : Bool) : (addPairing
   · cases p <;> simp
 
 /-- a request that does not report a pairing change leaves the "paired at all" status alone -/
-theorem handle_unchanged (p : Pairings) (r : Req) (h : (handle p r).2.pairingChanged = false) :
-    (handle p r).1.isEmpty = p.isEmpty := by
+theorem handle_unchanged (p : Pairings) (s : Option Client) (r : Req)
+    (h : (handle p s r).2.pairingChanged = false) : (handle p s r).1.isEmpty = p.isEmpty := by
   cases r with
   | pairSetupM5 c ok => cases ok <;> simp_all [handle, plain]
   | pairVerifyM3 ok => simp [handle]
-  | addPairing s c adm =>
+  | addPairing c adm =>
     simp only [handle]
     split
     · rename_i ha
@@ -202,7 +221,7 @@ theorem handle_unchanged (p : Pairings) (r : Req) (h : (handle p r).2.pairingCha
         | nil => exact absurd rfl hp
         | cons x t => rfl
     · rfl
-  | removePairing s c =>
+  | removePairing c =>
     simp only [handle] at h ⊢
     split
     · rename_i ha
@@ -228,18 +247,25 @@ theorem track_step (sf0 : Option String) (s : Sys) (st : Step) (h : Track sf0 s)
   cases st with
   | request conn r =>
     simp only [step]
-    unfold Track
-    rw [pr_execQ, pr_loopQ, pr_adv, pr_paired]
-    cases hp : (handle s.paired r).2.pairingChanged
-    · simp only [Bool.false_eq_true, if_false]
-      rw [sfFor_congr (handle_unchanged s.paired r hp)]
-      exact h
-    · simp
+    by_cases hc : isClosed s conn = true
+    · simp only [hc, if_true]; exact h
+    · simp only [hc, Bool.false_eq_true, if_false]
+      unfold Track
+      rw [pr_execQ, pr_loopQ, pr_adv, pr_paired]
+      cases hp : (handle s.paired (sessionOf s conn) r).2.pairingChanged
+      · simp only [Bool.false_eq_true, if_false]
+        rw [sfFor_congr (handle_unchanged s.paired (sessionOf s conn) r hp)]
+        exact h
+      · simp
   | taskDone i =>
     simp only [step]
     cases hd : s.deferred[i]? with
     | none => exact h
-    | some cr => obtain ⟨conn, rid⟩ := cr; exact h
+    | some cr =>
+      obtain ⟨conn, rid⟩ := cr
+      by_cases hc : isClosed s conn = true
+      · simp only [hc, if_true]; exact h
+      · simp only [hc, Bool.false_eq_true, if_false]; exact h
   | execRun i =>
     simp only [step]
     cases hd : s.execQ[i]? with
@@ -257,7 +283,8 @@ theorem track_run (sf0 : Option String) (s : Sys) (steps : List Step) (h : Track
   | nil => exact h
   | cons st rest ih => exact ih _ (track_step sf0 s st h)
 
-theorem track_init (info : Info) (p : Pairings) : Track (initialSf info p) (init info p) :=
+theorem track_init (info : Info) (p : Pairings) (ss : List (Nat × Client)) :
+    Track (initialSf info p) (init info p ss) :=
   Or.inr (by simp [init, advertisedSf, initialSf_eq])
 
 
@@ -275,18 +302,18 @@ structure Fresh (s : Sys) : Prop where
   execQ : ∀ r ∈ s.execQ, r < s.nextRid
   loopQ : ∀ r ∈ s.loopQ, r < s.nextRid
 
-theorem fresh_init (info : Info) (p : Pairings) : Fresh (init info p) :=
+theorem fresh_init (info : Info) (p : Pairings) (ss : List (Nat × Client)) : Fresh (init info p ss) :=
   ⟨by simp [init], by simp [init], by simp [init], by simp [init]⟩
 
 theorem pr_nextRid (s : Sys) (c rid : Nat) (r : Resp) : (processResponse s c rid r).nextRid = s.nextRid := by
   unfold processResponse
-  cases r.task <;> cases r.sharedKey <;> cases r.pairingChanged <;> rfl
+  cases r.task <;> cases r.sharedKey <;> cases r.pairingRemoved <;> cases r.pairingChanged <;> rfl
 
 theorem pr_mem_log (s : Sys) (c rid : Nat) (r : Resp) (o : Obs)
     (h : o ∈ (processResponse s c rid r).log) : o ∈ s.log ∨ o.rid = rid := by
   unfold processResponse at h
   revert h
-  cases r.task <;> cases r.sharedKey <;> cases r.pairingChanged <;>
+  cases r.task <;> cases r.sharedKey <;> cases r.pairingRemoved <;> cases r.pairingChanged <;>
     simp only [Bool.false_eq_true, if_true, if_false, List.mem_cons] <;> intro h <;>
     first
       | exact Or.inl h
@@ -302,7 +329,7 @@ theorem pr_mem_deferred (s : Sys) (c rid : Nat) (r : Resp) (d : Nat × Nat)
     (h : d ∈ (processResponse s c rid r).deferred) : d ∈ s.deferred ∨ d.2 = rid := by
   unfold processResponse at h
   revert h
-  cases r.task <;> cases r.sharedKey <;> cases r.pairingChanged <;>
+  cases r.task <;> cases r.sharedKey <;> cases r.pairingRemoved <;> cases r.pairingChanged <;>
     simp only [Bool.false_eq_true, if_true, if_false, List.mem_append, List.mem_singleton] <;> intro h <;>
     first
       | exact Or.inl h
@@ -350,21 +377,28 @@ theorem fresh_step (s : Sys) (st : Step) (h : Fresh s) : Fresh (step s st) := by
   cases st with
   | request conn r =>
     simp only [step]
-    exact fresh_processResponse s conn _ _ h
+    by_cases hc : isClosed s conn = true
+    · simp only [hc, if_true]; exact h
+    · simp only [hc, Bool.false_eq_true, if_false]
+      exact fresh_processResponse s conn _ _ h
   | taskDone i =>
     simp only [step]
     cases hd : s.deferred[i]? with
     | none => exact h
     | some cr =>
       obtain ⟨conn, rid⟩ := cr
-      refine ⟨?_, ?_, h.execQ, h.loopQ⟩
-      · intro o ho
-        simp only [List.mem_cons] at ho
-        rcases ho with rfl | ho
-        · exact h.deferred (conn, rid) (List.mem_of_getElem? hd)
-        · exact h.log o ho
-      · intro d hd'
-        exact h.deferred d ((List.eraseIdx_sublist _ _).mem hd')
+      by_cases hc : isClosed s conn = true
+      · simp only [hc, if_true]
+        exact ⟨h.log, fun d hd' => h.deferred d ((List.eraseIdx_sublist _ _).mem hd'), h.execQ, h.loopQ⟩
+      · simp only [hc, Bool.false_eq_true, if_false]
+        refine ⟨?_, ?_, h.execQ, h.loopQ⟩
+        · intro o ho
+          simp only [List.mem_cons] at ho
+          rcases ho with rfl | ho
+          · exact h.deferred (conn, rid) (List.mem_of_getElem? hd)
+          · exact h.log o ho
+        · intro d hd'
+          exact h.deferred d ((List.eraseIdx_sublist _ _).mem hd')
   | execRun i =>
     simp only [step]
     cases hd : s.execQ[i]? with
